@@ -39,7 +39,7 @@ PROPS = {
         "groups": [
             {"pkg": "server", "tags": "verif,test", "harness": "^verifH_C04_", "unwind": 5},
         ],
-        "bounds": {"history": "first start, registration, then 5 history shapes of 3-5 operations (ban with reports on disk; replay + conflicting report; two devices interleaved; identical resubmission; refused operations on a banned id) with symbolic payloads; clock, offset and slots concrete", "restarts": "two in a row"},
+        "bounds": {"history": "first start, registration, then 7 history shapes of 3-5 operations (ban with reports on disk; replay + conflicting report; two devices interleaved; identical resubmission; refused operations on a banned id; two reporting devices of which one is banned, in both report orders) with symbolic payloads; clock, offset and slots concrete", "restarts": "two in a row"},
         "outside": ["authorized-server list and migration orders (documented as not persisted)"],
     },
     "C06": {
